@@ -10,6 +10,10 @@
   gen_delitem_loop    the lookup loop `for k in self._keys: if <k> == <key>: <pop>; ...; break` as a shape: is the
                       stored key folded, is the key folded, which spelling is popped.
 
+  gen_clear           Entity.clear as a straight-line list of steps (SM/IndexClear.v [cstep]): the classname reset through
+                      __setitem__ (value: 'worldspawn' if self is self.map.spawn else 'info_null'), `del self['<key>']`
+                      statements, `self._keys.clear()`, the direct store of the classname.
+
 Fail-closed: the tuple form must be exactly `if isinstance(key, tuple): for k in key: del self[k]; return`; a `return`
 before the loop, a store through `self[...]`, a use of `_keys` before the loop, a statement after the loop that is not
 irrelevant to the indexes, or any unrecognised statement raises TranslateError.
@@ -19,7 +23,7 @@ from __future__ import annotations
 import ast
 
 from harness.common import SRC, TranslateError
-from translate.c07_index_shapes import _MaintTr, _find, _strip_doc, _is_self, _is_self_keys, _mentions_keys
+from translate.c07_index_shapes import _MaintTr, _coq_str, _find, _strip_doc, _is_self, _is_self_keys, _mentions_keys
 
 
 class _DelTr(_MaintTr):
@@ -203,6 +207,79 @@ def _delitem(fn: ast.FunctionDef) -> tuple[str, dict]:
     return coq, dict(prog=prog, fold_stored=fold_stored, key_folded=key_folded, pop_by=pops[0], tuple_form=tuple_form)
 
 
+def _clear(fn: ast.FunctionDef) -> tuple[str, dict]:
+    """Entity.clear as a straight-line list of steps (SM/IndexClear.v [cstep])."""
+    where = f'Entity.clear:{fn.lineno}'
+    params = [a.arg for a in fn.args.args]
+    if params != ['self'] or fn.args.vararg or fn.args.kwarg or fn.args.kwonlyargs:
+        raise TranslateError(f'{where}: unexpected parameters {params}')
+    cvar: str | None = None
+    steps: list[str] = []
+
+    def lit(e: ast.AST, s: str) -> bool:
+        return isinstance(e, ast.Constant) and e.value == s
+
+    def is_spawn_test(t: ast.expr) -> bool | None:
+        """True: `self is self.map.spawn`, False: its negation, None: something else"""
+        if isinstance(t, ast.Compare) and len(t.ops) == 1 and isinstance(t.ops[0], (ast.Is, ast.IsNot)):
+            a, b = t.left, t.comparators[0]
+            sp = lambda x: (isinstance(x, ast.Attribute) and x.attr == 'spawn' and isinstance(x.value, ast.Attribute)   # noqa: E731
+                            and x.value.attr == 'map' and _is_self(x.value.value))
+            if (_is_self(a) and sp(b)) or (_is_self(b) and sp(a)):
+                return isinstance(t.ops[0], ast.Is)
+        return None
+
+    def is_class_value(e: ast.expr) -> bool:
+        """the name bound to 'worldspawn' if self is self.map.spawn else 'info_null' (or that expression itself)"""
+        if isinstance(e, ast.Name):
+            return cvar is not None and e.id == cvar
+        if isinstance(e, ast.IfExp):
+            s = is_spawn_test(e.test)
+            if s is True:
+                return lit(e.body, 'worldspawn') and lit(e.orelse, 'info_null')
+            if s is False:
+                return lit(e.body, 'info_null') and lit(e.orelse, 'worldspawn')
+        return False
+
+    for st in _strip_doc(fn.body):
+        w = f'{where}:{st.lineno}'
+        if isinstance(st, ast.Pass):
+            continue
+        if isinstance(st, ast.AnnAssign) and st.value is not None:
+            st = ast.Assign(targets=[st.target], value=st.value, lineno=st.lineno)
+        if isinstance(st, ast.Assign) and len(st.targets) == 1:
+            t, v = st.targets[0], st.value
+            if isinstance(t, ast.Name) and cvar is None and isinstance(v, ast.IfExp) and is_class_value(v):
+                cvar = t.id
+                continue
+            if isinstance(t, ast.Subscript) and _is_self(t.value):
+                if lit(t.slice, 'classname') and is_class_value(v):
+                    steps.append('CSetClass')
+                    continue
+                raise TranslateError(f'{w}: unrecognised store through self[...]: {ast.unparse(st)[:80]}')
+            if isinstance(t, ast.Subscript) and _is_self_keys(t.value):
+                if lit(t.slice, 'classname') and is_class_value(v):
+                    steps.append('CStoreClass')
+                    continue
+                raise TranslateError(f'{w}: unrecognised direct store into _keys: {ast.unparse(st)[:80]}')
+        if isinstance(st, ast.Delete):
+            for t in st.targets:
+                if isinstance(t, ast.Subscript) and _is_self(t.value) and isinstance(t.slice, ast.Constant) and isinstance(t.slice.value, str) \
+                        and t.slice.value.isascii():
+                    steps.append('CDelKey ' + _coq_str(t.slice.value))
+                else:
+                    raise TranslateError(f'{w}: unrecognised del statement {ast.unparse(st)[:80]}')
+            continue
+        if isinstance(st, ast.Expr) and isinstance(st.value, ast.Call) and isinstance(st.value.func, ast.Attribute) \
+                and st.value.func.attr == 'clear' and _is_self_keys(st.value.func.value) and not st.value.args and not st.value.keywords:
+            steps.append('CKeysClear')
+            continue
+        if _mentions_keys(st) or not _MaintTr._irrelevant(st) or any(isinstance(n, ast.Name) and n.id == cvar for n in ast.walk(st) if isinstance(getattr(n, 'ctx', None), ast.Store)):
+            raise TranslateError(f'{w}: unrecognised statement {ast.unparse(st)[:80]}')
+    lst = '[' + '; '.join(f'({s})' if ' ' in s else s for s in steps) + ']'
+    return f'Definition gen_clear : list cstep := {lst}.\n', dict(steps=steps)
+
+
 def translate() -> tuple[str, dict]:
     path = SRC / 'vmf.py'
     try:
@@ -210,10 +287,11 @@ def translate() -> tuple[str, dict]:
     except SyntaxError as e:
         raise TranslateError(f'vmf.py: {e}') from None
     c, s = _delitem(_find(tree, 'Entity', '__delitem__'))
+    c2, s2 = _clear(_find(tree, 'Entity', 'clear'))
     text = ('(* GENERATED by translate/c07_index_del.py from /repo/src/srctools/vmf.py. Do not edit. *)\n'
             'From stdpp Require Import list.\nFrom Coq Require Import NArith.\n'
-            'From SV Require Import SM.IndexModel SM.IndexShapes SM.IndexMaint SM.IndexDel.\n\n' + c)
-    return text, {'delitem': s}
+            'From SV Require Import SM.IndexModel SM.IndexShapes SM.IndexMaint SM.IndexDel SM.IndexClear.\n\n' + c + '\n' + c2)
+    return text, {'delitem': s, 'clear': s2}
 
 
 GEN = {'IndexDel_gen': translate}
